@@ -33,7 +33,7 @@ META = {
 }
 
 IMPORTS = ["UPV.Model.T2S", "UPV.Corr.Corr_C28"]
-NUM = {"n0": 0, "n1": 1, "lvl": 2}       # numeric fluent codes; n0 and lvl may occur in durations
+NUM = {"n0": 0, "n1": 1, "lvl": 2, "n2": 3}       # numeric fluent codes; n0 and lvl may occur in durations
 
 
 # ----------------------------------------------------------------------------- specs (plain data)
@@ -63,7 +63,7 @@ def rand_cond(rng, has_param, init=None):
         fl = rng.choice(["b0", "b1", "p"])
         arg = None if fl != "p" else (("p",) if has_param and rng.random() < 0.7 else ("o", rng.randrange(2)))
         return ("b", fl, arg, ival(fl, arg) if bias else rng.random() < 0.6)
-    fl = rng.choice(["n0", "n1", "lvl"])
+    fl = rng.choice(["n0", "n1", "n1", "n2", "lvl"])
     arg = None if fl != "lvl" else (("p",) if has_param and rng.random() < 0.7 else ("o", rng.randrange(2)))
     k = rng.choice(["ge", "le"])
     c = F(rng.randint(0, 6))
@@ -77,10 +77,12 @@ def rand_eff(rng, has_param):
         fl = rng.choice(["b0", "b1", "p"])
         arg = None if fl != "p" else (("p",) if has_param and rng.random() < 0.7 else ("o", rng.randrange(2)))
         return ("setb", fl, arg, rng.random() < 0.6)
-    fl = rng.choice(["n0", "n1", "lvl"])
+    fl = rng.choice(["n0", "n1", "n1", "n2", "lvl"])
     arg = None if fl != "lvl" else (("p",) if has_param and rng.random() < 0.7 else ("o", rng.randrange(2)))
+    if fl == "n2":                                    # an effect whose VALUE reads another fluent: n2 := n1 + c
+        return ("copy", "n2", None, ("n1", rng.choice([F(0), F(1), F(-1), F(1, 2)])))
     if fl == "n1":
-        k = rng.choice(["setn", "inc", "dec"])
+        k = rng.choice(["setn", "inc", "dec", "dec"])
     else:
         k = rng.choice(["setn", "inc", "inc"])        # fluents used in durations stay positive
     return (k, fl, arg, rng.choice([F(1), F(2), F(1, 2), F(3)]))
@@ -89,7 +91,7 @@ def rand_eff(rng, has_param):
 def rand_spec(rng, idx):
     init = {"b0": rng.random() < 0.5, "b1": rng.random() < 0.5,
             "p": [rng.random() < 0.5, rng.random() < 0.5],
-            "n0": rng.choice([F(1), F(2), F(3), F(5, 2)]), "n1": F(rng.randint(0, 4)),
+            "n0": rng.choice([F(1), F(2), F(3), F(5, 2)]), "n1": F(rng.randint(0, 4)), "n2": F(rng.randint(0, 3)),
             "lvl": [rng.choice([F(1), F(2), F(7, 2)]), rng.choice([F(1), F(3), F(1, 2)])]}
     acts = []
     for a in range(rng.randint(2, 3)):
@@ -137,7 +139,7 @@ def rand_spec(rng, idx):
 def init_state(spec):
     i = spec["init"]
     return {("b0", None): i["b0"], ("b1", None): i["b1"], ("p", 0): i["p"][0], ("p", 1): i["p"][1],
-            ("n0", None): i["n0"], ("n1", None): i["n1"], ("lvl", 0): i["lvl"][0], ("lvl", 1): i["lvl"][1]}
+            ("n0", None): i["n0"], ("n1", None): i["n1"], ("n2", None): i["n2"], ("lvl", 0): i["lvl"][0], ("lvl", 1): i["lvl"][1]}
 
 
 def garg(arg, param):
@@ -162,6 +164,8 @@ def apply_effs(st, effs, param):
         key = (fl, garg(arg, param))
         if k == "setb" or k == "setn":
             new[key] = v
+        elif k == "copy":
+            new[key] = st[(v[0], None)] + v[1]
         elif k == "inc":
             new[key] = st[key] + v
         else:
@@ -192,8 +196,57 @@ def directed_alias_spec(idx):
         {"name": "act1", "kind": "dur", "param": False, "conds": [("start", ("b", "p", ("o", 1), True))],
          "effs": [("end", ("setb", "b0", None, True))],
          "lo": ("c", F(1)), "hi": ("c", F(3)), "lopen": True, "ropen": False}],
-        "init": {"b0": False, "b1": False, "p": [True, True], "n0": F(1), "n1": F(0), "lvl": [F(1), F(1)]},
+        "init": {"b0": False, "b1": False, "p": [True, True], "n0": F(1), "n1": F(0), "n2": F(0), "lvl": [F(1), F(1)]},
         "goal": None, "epsilon": None, "prune": True}
+
+
+def directed_startdelta_spec(rng, idx):
+    """A durative action with a START increase/decrease of n1 that is READ later in the same action: by an end / over-all
+    condition, by an end increase/decrease of n1 and by an end effect whose value is n1 + c.  Thresholds sit strictly
+    between f - v and v - f (and between the two candidate final values), so a wrong start-effect substitution
+    (operands of Minus/Plus, missing substitution) changes the verdict of the compiled problem."""
+    f0 = F(rng.randint(0, 5))
+    v = rng.choice([F(1), F(2), F(3), F(1, 2), F(5, 2), F(4)])
+    if f0 == v:
+        v += 1
+    k = rng.choice(["dec", "dec", "dec", "inc"])
+    d = abs(f0 - v)
+    thr = rng.choice([F(0), d / 2, -d / 2]) if k == "dec" else f0 + v / 2
+    has_param = rng.random() < 0.3
+    act0 = {"name": "act0", "kind": "dur", "param": has_param,
+            "conds": [(rng.choice(["end", "end", "oc", "oo", "cc", "co"]), (rng.choice(["ge", "le"]), "n1", None, thr))],
+            "effs": [("start", (k, "n1", None, v))]}
+    c2 = rng.choice([F(0), F(1), F(2), F(1, 2)])
+    r = rng.random()
+    if r < 0.4:
+        act0["effs"].append(("end", (rng.choice(["inc", "dec"]), "n1", None, c2)))
+        sign = 1 if act0["effs"][-1][1][0] == "inc" else -1
+        read_fl, mid = "n1", sign * c2          # final n1 is (f0 -/+ v) + sign*c2: midpoint of right and swapped value
+    elif r < 0.8:
+        act0["effs"].append(("end", ("copy", "n2", None, ("n1", c2))))
+        read_fl, mid = "n2", c2
+    else:
+        act0["effs"].append(("end", ("setb", "b0", None, True)))
+        read_fl, mid = "n1", F(0)
+    if k == "inc":
+        mid = f0 + mid + v / 2
+    if rng.random() < 0.5:
+        act0["conds"].append(("start", ("b", "b1", None, False)))
+    lo = rand_bound(rng, has_param)
+    act0["lo"], act0["hi"] = lo, ("+", lo, ("c", rng.choice([F(1), F(2)])))
+    act0["lopen"], act0["ropen"] = rng.choice([(False, False), (True, False), (False, True), (True, True)])
+    act1 = {"name": "act1", "kind": rng.choice(["dur", "inst"]), "param": False,
+            "conds": [("start", (rng.choice(["ge", "le"]), read_fl, None, mid))],
+            "effs": [("end", ("setb", "b1", None, True))]}
+    if act1["kind"] == "dur":
+        act1["lo"], act1["hi"], act1["lopen"], act1["ropen"] = ("c", F(2)), ("c", F(3)), rng.random() < 0.5, False
+    else:
+        act1["effs"] = [("start", ("setb", "b1", None, True))]
+    init = {"b0": False, "b1": False, "p": [True, False], "n0": rng.choice([F(1), F(2), F(5, 2)]), "n1": f0,
+            "n2": F(rng.randint(0, 2)), "lvl": [F(1), F(3, 2)]}
+    goal = rng.choice([None, None, ("b", "b1", None, True), ("b", "b0", None, True)])
+    return {"idx": idx, "acts": [act0, act1], "init": init, "goal": goal,
+            "epsilon": rng.choice([None, F(1, 10)]), "prune": rng.random() < 0.7, "family": "start-delta-read-at-end"}
 
 
 def step_state(spec, st, ai, param):
@@ -215,7 +268,7 @@ def build(spec):
     p = Problem("c28_%d" % spec["idx"])
     p.add_objects(objs)
     fl = {"b0": Fluent("b0", BoolType()), "b1": Fluent("b1", BoolType()), "p": Fluent("p", BoolType(), x=T),
-          "n0": Fluent("n0", RealType()), "n1": Fluent("n1", RealType()), "lvl": Fluent("lvl", RealType(), x=T)}
+          "n0": Fluent("n0", RealType()), "n1": Fluent("n1", RealType()), "n2": Fluent("n2", RealType()), "lvl": Fluent("lvl", RealType(), x=T)}
     for f in fl.values():
         p.add_fluent(f)
     i = spec["init"]
@@ -223,6 +276,7 @@ def build(spec):
     p.set_initial_value(fl["b1"](), i["b1"])
     p.set_initial_value(fl["n0"](), i["n0"])
     p.set_initial_value(fl["n1"](), i["n1"])
+    p.set_initial_value(fl["n2"](), i["n2"])
     for k in range(2):
         p.set_initial_value(fl["p"](objs[k]), i["p"][k])
         p.set_initial_value(fl["lvl"](objs[k]), i["lvl"][k])
@@ -256,6 +310,8 @@ def build(spec):
         args = (timing,) if timing is not None else ()
         if k in ("setb", "setn"):
             a.add_effect(*args, target, v)
+        elif k == "copy":
+            a.add_effect(*args, target, Plus(fl[v[0]](), v[1]))
         elif k == "inc":
             a.add_increase_effect(*args, target, v)
         else:
@@ -407,6 +463,7 @@ def run(ctx):
     rng = ctx.rng
     n_problems = 40 if ctx.quick else 200
     maxlen = 2 if ctx.quick else 3
+    n_directed = 14 if ctx.quick else 50      # problems of the family start-delta-read-at-end (see directed_startdelta_spec)
     stats = Counter()
     stats["epsilon_zero_setter"] = epsilon_zero_probe(ctx)
     cases, raw, preamble = [], [], []
@@ -416,7 +473,12 @@ def run(ctx):
     attempts = 0
     while stats["problems"] < n_problems and attempts < 6 * n_problems:
         attempts += 1
-        spec = directed_alias_spec(pi) if pi == 0 else rand_spec(rng, pi)
+        if pi == 0:
+            spec = directed_alias_spec(pi)
+        elif pi <= n_directed:
+            spec = directed_startdelta_spec(rng, pi)
+        else:
+            spec = rand_spec(rng, pi)
         try:
             built = build(spec)
         except Exception as e:       # a generated problem the API or the compiler refuses: not an input of the property
@@ -509,6 +571,13 @@ def run(ctx):
                     nontrivial.add(json.dumps([spec["idx"], seq]))
                 this_cases.append((g_case(spec, eps, steps, obs), m, spec, eps, steps, obs, tags))
         stats["problems"] += 1
+        stats["problems_family_" + spec.get("family", "alias" if pi == 0 else "random")] += 1
+        for act in spec["acts"]:
+            sfl = set((e[1], e[2]) for (w, e) in act["effs"] if w == "start" and e[0] in ("inc", "dec"))
+            rd = set((c[1], c[2]) for (w, c) in act["conds"] if w != "start")
+            rd |= set((e[1], e[2]) for (w, e) in act["effs"] if w == "end" and e[0] in ("inc", "dec"))
+            rd |= set((e[3][0], None) for (w, e) in act["effs"] if w == "end" and e[0] == "copy")
+            stats["actions_start_delta_read_later"] += bool(sfl & rd)
         stats["problems_with_goal"] += spec["goal"] is not None
         stats["problems_epsilon_%s" % spec["epsilon"]] += 1
         stats["problems_with_only_empty_plan"] += found <= 1
